@@ -64,6 +64,11 @@ pub struct FlakyUpdate<S> {
     inner: S,
     failed: std::sync::atomic::AtomicBool,
 }
+impl<S: Clone> Clone for FlakyUpdate<S> {
+    fn clone(&self) -> Self {
+        Self { inner: self.inner.clone(), failed: std::sync::atomic::AtomicBool::new(self.failed.load(std::sync::atomic::Ordering::SeqCst)) }
+    }
+}
 #[async_trait::async_trait]
 impl<S: CredentialStore<PasskeyItem = Passkey> + Send + Sync> CredentialStore for FlakyUpdate<S> {
     type PasskeyItem = Passkey;
